@@ -8,7 +8,7 @@ LEAN_MODULES = ["ViaProofs.C04"]
 LEMMA_MODULES = ['ViaProofs.ConnLemmas', 'ViaProofs.C13', 'ViaProofs.C08', 'ViaProofs.Roundtrip', 'ViaProofs.Trans.ENC']
 REQUIRED_THEOREMS = ['Via.C04_head_shape', 'Via.C04_refused', 'Via.C04_framing_added', 'Via.C04_no_framing_when_no_content', 'Via.C04_chunk_wire', 'Via.C04_chunk_header_parses']
 LEVEL = "proof"
-LEVEL_TEXT = ('PROOF of encoder algebra (head shape = C13, framing added iff needed and permitted, chunk wire bytes, chunk header round trip) on an encoder model that is PROVED equal to a translation of the current encoder source (Trans/ENC), and of the round trips 'what the encoders emit the library's own receivers accept as exactly one message' (Roundtrip, Trans/EndToEnd); the property itself (every byte written parses under an independent grammar) is judged on the bytes the REAL server and the REAL http_client hand to the adaptor, plus encoder-level chunk headers for sizes up to 2^63-1. Known finding C04-KF1 (framing headers detected by substring search).')
+LEVEL_TEXT = ('PROOF of encoder algebra (head shape = C13, framing added iff needed and permitted, chunk wire bytes, chunk header round trip) on an encoder model that is PROVED equal to a translation of the current encoder source (Trans/ENC), and of the round trips (what the encoders emit, the receivers of the library accept as exactly one message: Roundtrip, Trans/EndToEnd); the property itself (every byte written parses under an independent grammar) is judged on the bytes the REAL server and the REAL http_client hand to the adaptor, plus encoder-level chunk headers for sizes up to 2^63-1. Known finding C04-KF1 (framing headers detected by substring search).')
 TRUSTED_BASE = S.SIM_TRUSTED
 ASSUMPTIONS = S.SIM_ASSUMPTIONS
 compare = S.compare
